@@ -126,6 +126,7 @@ type Interp struct {
 		EnumQueries int
 		XChecked    int
 		XDisagree   int
+		XUnknown    int
 	}
 	Used     map[string]string // function → class (interp / intrinsic / stub)
 	InitUsed map[string]string
